@@ -1068,3 +1068,107 @@ pub fn flush_cuts(outs: &[Vec<u8>]) -> Vec<usize> {
     }
     cuts
 }
+
+// ------------------------------------------------------------------------------------------------
+// the semantic safe-cut predicate of Proofs/FilterSplit.lean (`safeCutB`), on the REAL tokenizer
+// ------------------------------------------------------------------------------------------------
+
+#[derive(Clone, Debug, PartialEq, Eq)]
+pub struct RTok {
+    pub ty: u8,
+    pub raw: Vec<u8>,
+    pub name: Option<String>,
+}
+
+/// complete tokens of `data` and `raw() ++ buffered()` at the ErrorToken
+pub fn rtokenize(data: &[u8]) -> (Vec<RTok>, Vec<u8>) {
+    let mut t = Tokenizer::new(data.to_vec());
+    let mut out = Vec::new();
+    loop {
+        let ty = match t.next() {
+            Ok(ty) => ty,
+            Err(_) => return (out, Vec::new()),
+        };
+        if ty == TokenType::ErrorToken {
+            let mut rest = t.raw();
+            rest.extend(t.buffered());
+            return (out, rest);
+        }
+        let raw = t.raw();
+        let (k, name) = match ty {
+            TokenType::TextToken => (0u8, None),
+            TokenType::StartTagToken => (1, t.tag_name().ok().and_then(|x| x.0)),
+            TokenType::EndTagToken => (2, t.tag_name().ok().and_then(|x| x.0)),
+            TokenType::SelfClosingTagToken => (3, t.tag_name().ok().and_then(|x| x.0)),
+            _ => (4, None),
+        };
+        if raw.is_empty() {
+            return (out, Vec::new());
+        }
+        out.push(RTok { ty: k, raw, name });
+    }
+}
+
+/// `splitHeld`: a final text token containing '<' is held
+pub fn split_held(mut ts: Vec<RTok>) -> (Vec<RTok>, Vec<u8>) {
+    match ts.last() {
+        Some(t) if t.ty == 0 && t.raw.contains(&b'<') => {
+            let h = ts.pop().unwrap();
+            (ts, h.raw)
+        }
+        _ => (ts, Vec::new()),
+    }
+}
+
+/// `utf8Split`: None = invalid, else (valid part, incomplete tail)
+pub fn utf8_split(d: &[u8]) -> Option<(Vec<u8>, Vec<u8>)> {
+    match std::str::from_utf8(d) {
+        Ok(_) => Some((d.to_vec(), Vec::new())),
+        Err(e) => {
+            if e.error_len().is_some() {
+                None
+            } else {
+                Some((d[..e.valid_up_to()].to_vec(), d[e.valid_up_to()..].to_vec()))
+            }
+        }
+    }
+}
+
+/// `safeCutB tk L x y` of Proofs/FilterSplit.lean evaluated with the real tokenizer
+pub fn safe_cut_sem(l: &[u8], x: &[u8], y: &[u8]) -> bool {
+    let mut lx = l.to_vec();
+    lx.extend_from_slice(x);
+    let (a1, p1) = match utf8_split(&lx) {
+        None => return true,
+        Some(v) => v,
+    };
+    let (ts1, r1) = rtokenize(&a1);
+    let (todo1, h1) = split_held(ts1);
+    let mut tail = h1.clone();
+    tail.extend_from_slice(&r1);
+    if std::str::from_utf8(&tail).is_err() {
+        return false;
+    }
+    let mut py = p1.clone();
+    py.extend_from_slice(y);
+    let (a2, _) = match utf8_split(&py) {
+        None => return true,
+        Some(v) => v,
+    };
+    let mut whole = a1.clone();
+    whole.extend_from_slice(&a2);
+    let mut t2 = tail.clone();
+    t2.extend_from_slice(&a2);
+    let (ts2, r2) = rtokenize(&t2);
+    let (tsw, rw) = rtokenize(&whole);
+    let mut expect = todo1.clone();
+    expect.extend(ts2.iter().cloned());
+    if tsw != expect || rw != r2 {
+        return false;
+    }
+    let (todo2, h2) = split_held(ts2);
+    let (todow, hw) = split_held(expect);
+    let mut e2 = todo1;
+    e2.extend(todo2);
+    todow == e2 && hw == h2
+}
